@@ -15,6 +15,7 @@ func init() {
 		func(c *Ctx) {
 			c.run("C09-V", "validator recognition: accepting paths of the path-element validator establish the element facts", c09Validators)
 			c.run("C09-D", "the decoder validates every element of the peer's path list before returning the object", c09Decoder)
+			c.run("C09-I", "shared with C07-R1/C10-R4: the only removals while receiving iterate the recorded created paths", func(c *Ctx) { c07R1(c); c10R4(c) })
 			c.run("C09-T", "TAINT: every non-root join element in the receive path is trusted or validated", c09Taint)
 		})
 }
